@@ -8,7 +8,7 @@ work="$(mktemp -d /tmp/seedtest-XXXXXX)"
 trap 'git -C /repo worktree remove --force "$work/repo" >/dev/null 2>&1; rm -rf "$work"' EXIT
 git -C /repo worktree add --detach "$work/repo" HEAD >/dev/null 2>&1
 git -C "$work/repo" apply "$patch"
-rsync -a --exclude .git --exclude replays --exclude seeded /verif/ "$work/verif/"
+rsync -a --exclude .git --exclude replays --exclude seeded /verif/ "$work/verif/" || [ $? -eq 24 ]
 sed -i "s#=> /repo#=> $work/repo#" "$work/verif/harness/go.mod"
 cd "$work/verif"
 set +e
